@@ -61,15 +61,22 @@ def universe_blocks(tier, sd):
         win = dict(dx=[-6, -4, -2, 0, 2], dy=[-4, 0, 2], dz=[-4, -2, 0, 2])
         blocks = [
             dict(proc="isect", api="obj", sa=core, sra=[1 + sd % 2], sb=core, srb=rb, **win),
-            dict(proc="isect", api="reg", sa=[ci["L"], ci["twin"]], sra=[1], sb=core, srb=rb[:6], **win),
+            dict(proc="isect", api="reg", sa=[ci["L"], ci["twin"]], sra=[1], sb=core, srb=rb[:4], **win),
+            # tilt through the parent frame only (local pitch = roll = 0): never planar
+            dict(proc="isect", api="obj", sa=[ci["bar"], ci["brick"]], sqa=[5 + sd % 3, 9, 14 + sd % 7], sra=[1, 2],
+                 sb=[ci["cube"], ci["bar"], ci["brick"]], srb=[1, 2], **win),
+            dict(proc="dist", api="obj", sa=[ci["bar"], ci["brick"]], sqa=[6, 11 + sd % 5], sra=[1, 2],
+                 sb=[ci["bar"], ci["brick"]], sqb=[1, 7], srb=[1], dx=win["dx"], dy=win["dy"], dz=[0, 2]),
             dict(proc="isect", api="obj", sa=[ci["bigL"], ci["big"]], sra=[1], sb=[ci["cube"], ci["L"], ci["twin"]],
                  srb=[1, 2, 5, 9], dx=[-8, -6, -4, -2, 0, 2, 4], dy=[-8, -4, -2, 0, 2, 6], dz=[-6, -2, 0, 2]),
             dict(proc="dist", api="obj", sa=core[:3], sra=[1, 2], sb=core[:4], srb=rb[:6], **win),
             dict(proc="cont", api="reg", sa=[ci["big"], ci["bigL"], ci["roomL"]], sra=[1, 2, 7],
-                 sb=[ci["cube"], ci["L"], ci["twin"]], srb=[1, 5, 9],
+                 sb=[ci["cube"], ci["L"], ci["twin"]], srb=[1, 5],
                  dx=[-8, -4, -2, 0, 2, 4, 6], dy=[-6, -4, 0, 2, 4], dz=[-4, 0, 2]),
             dict(proc="foot", api="reg", sa=[1], sra=[1], sb=[ci["cube"], ci["L"], ci["U"], ci["twin"]],
                  srb=[1, 2, 5, 9], dx=list(range(-14, 15, 2)), dy=list(range(-14, 15, 4)), dz=[0], poly=0),
+            dict(proc="foot", api="reg", sa=[1], sra=[1], sb=[ci["bar"], ci["brick"]], sqb=[5 + sd % 4, 12], srb=[1, 2],
+                 dx=list(range(-14, 15, 2)), dy=list(range(-14, 15, 4)), dz=[0], poly=0),
         ]
     else:
         small = G.SMALL
@@ -86,11 +93,18 @@ def universe_blocks(tier, sd):
                  dx=list(range(-8, 9, 2)), dy=list(range(-6, 7, 2)), dz=[-4, 0, 2]),
             dict(proc="foot", api="reg", sa=[1], sra=[1], sb=small, srb=rot_all[sd % 2 :: 2],
                  dx=list(range(-16, 17, 2)), dy=list(range(-16, 17, 4)), dz=[0], poly=0),
+            dict(proc="isect", api="obj", sa=G.TILTABLE[:2], sqa=rot_all[4:], sra=[1, 2, 3, 4], sb=small, srb=[1, 2], **win),
+            dict(proc="dist", api="obj", sa=G.TILTABLE[:2], sqa=rot_all[4::2], sra=[1, 2], sb=G.TILTABLE[:2], sqb=[1, 7, 13],
+                 srb=[1, 2], dx=win["dx"], dy=win["dy"], dz=[0, 2]),
+            dict(proc="foot", api="reg", sa=[1], sra=[1], sb=G.TILTABLE[:2], sqb=rot_all[4:], srb=[1, 2],
+                 dx=list(range(-16, 17, 2)), dy=list(range(-16, 17, 4)), dz=[0], poly=0),
         ]
     out = []
     for b in blocks:
         b = dict(b)
         b.setdefault("poly", 0)
+        b.setdefault("sqa", [1])
+        b.setdefault("sqb", [1])
         b["pa"] = [0, 0, 0] if b["proc"] == "foot" else [4, -2, 2]
         if b["proc"] == "foot":
             for pi in range(1, len(G.POLYS) + 1):
@@ -104,7 +118,7 @@ def universe_blocks(tier, sd):
 
 def block_size(b):
     n = 1
-    for k in ("sa", "sra", "sb", "srb", "dx", "dy", "dz"):
+    for k in ("sa", "sqa", "sra", "sb", "sqb", "srb", "dx", "dy", "dz"):
         n *= len(b[k])
     return n
 
@@ -211,35 +225,35 @@ def replay_case(c):
     try:
         if c["proc"] == "isect":
             if c["api"] == "obj":
-                a = G.make_object(c["a"], c["ra"], c["pa"])
-                b = G.make_object(c["b"], c["rb"], c["pb"])
+                a = G.make_object(c["a"], c["ra"], c["pa"], c["qa"])
+                b = G.make_object(c["b"], c["rb"], c["pb"], c["qb"])
                 out["obs"] = bool(a.intersects(b))
                 oi = pr.take("obj_isect")
                 mi = pr.take("mvr_isect")
                 out["exit"] = REAL_OBJ.get(oi) if oi in (0, 1) else REAL_ISECT.get(mi)
                 out["obs_rev"] = bool(b.intersects(a))
             else:
-                ra = G.make_region(c["a"], c["ra"], c["pa"])
-                rb = G.make_region(c["b"], c["rb"], c["pb"])
+                ra = G.make_region(c["a"], G.compose(c["qa"], c["ra"]), c["pa"])
+                rb = G.make_region(c["b"], G.compose(c["qb"], c["rb"]), c["pb"])
                 out["obs"] = bool(ra.intersects(rb))
                 out["exit"] = REAL_ISECT.get(pr.take("mvr_isect"))
                 # an Object (precomputed shape data) against a bare region (none): still PASS 2B
-                a = G.make_object(c["a"], c["ra"], c["pa"])
+                a = G.make_object(c["a"], c["ra"], c["pa"], c["qa"])
                 out["obs_rev"] = bool(a.intersects(rb))
         elif c["proc"] == "dist":
-            a = G.make_object(c["a"], c["ra"], c["pa"])
-            b = G.make_object(c["b"], c["rb"], c["pb"])
+            a = G.make_object(c["a"], c["ra"], c["pa"], c["qa"])
+            b = G.make_object(c["b"], c["rb"], c["pb"], c["qb"])
             out["obs"] = float(a.minimumDistanceTo(b))
             out["exit"] = REAL_DIST.get(pr.take("obj_dist"))
             out["obs_rev"] = float(b.minimumDistanceTo(a))
         elif c["proc"] == "cont":
-            reg = G.make_region(c["a"], c["ra"], c["pa"])
-            o = G.make_object(c["b"], c["rb"], c["pb"])
+            reg = G.make_region(c["a"], G.compose(c["qa"], c["ra"]), c["pa"])
+            o = G.make_object(c["b"], c["rb"], c["pb"], c["qb"])
             out["obs"] = bool(reg.containsObject(o))
             out["exit"] = REAL_CONT.get(pr.take("mvr_cont"))
         elif c["proc"] == "foot":
             fp = G.make_footprint(c["poly"])
-            o = G.make_object(c["b"], c["rb"], c["pb"])
+            o = G.make_object(c["b"], c["rb"], c["pb"], c["qb"])
             out["obs"] = bool(fp.containsObject(o))
             out["exit"] = REAL_FOOT.get(pr.take("foot_cont"))
     except Exception as e:  # the real code failed on a well-formed configuration
@@ -255,9 +269,11 @@ def describe(c):
     d = {
         "proc": c["proc"], "api": c["api"],
         "A": {"shape": e[c["a"] - 1]["name"], "dims": e[c["a"] - 1]["dims"], "position": list(G.real_pos(c["pa"])),
-              "yaw_pitch_roll_quarter_turns": list(G.ROTS[c["ra"] - 1][1])},
+              "yaw_pitch_roll_quarter_turns": list(G.ROTS[c["ra"] - 1][1]),
+              "parentOrientation_quarter_turns": list(G.ROTS[c["qa"] - 1][1])},
         "B": {"shape": e[c["b"] - 1]["name"], "dims": e[c["b"] - 1]["dims"], "position": list(G.real_pos(c["pb"])),
-              "yaw_pitch_roll_quarter_turns": list(G.ROTS[c["rb"] - 1][1])},
+              "yaw_pitch_roll_quarter_turns": list(G.ROTS[c["rb"] - 1][1]),
+              "parentOrientation_quarter_turns": list(G.ROTS[c["qb"] - 1][1])},
     }
     if c["proc"] == "foot":
         d["A"] = {"footprint": G.POLYS[c["poly"] - 1]}
@@ -302,7 +318,8 @@ def select(cases, outs, quota, rng):
         os_ = outs.get(c["id"])
         if not os_:
             raise MachineryError(f"no TLC output for case {c['id']}")
-        key = (c["proc"], c["api"], tuple(sorted({o["exit"] for o in os_})), os_[0]["exp"])
+        tilt = "ptilt" if c["qa"] > 1 or c["qb"] > 1 else ""   # tilted through the parent frame only
+        key = (c["proc"], c["api"] + tilt, tuple(sorted({o["exit"] for o in os_})), os_[0]["exp"])
         buckets.setdefault(key, []).append(c)
     chosen = []
     for key in sorted(buckets):
@@ -363,7 +380,7 @@ def main(tier):
         exp = os_[0]["exp"]
         model_exits = sorted({o["exit"] for o in os_})
         nontrivial = exp != "free"
-        ck.case((c["proc"], c["api"], c["a"], c["ra"], tuple(c["pa"]), c["b"], c["rb"], tuple(c["pb"]), c["poly"]), nontrivial)
+        ck.case((c["proc"], c["api"], c["a"], c["qa"], c["ra"], tuple(c["pa"]), c["b"], c["qb"], c["rb"], tuple(c["pb"]), c["poly"]), nontrivial)
         rep = {"property": "C04", "configuration": describe(c), "case": c, "expected": exp,
                "model_exits": model_exits, "observed": r}
         if "error" in r:
